@@ -5,6 +5,7 @@ use std::fs;
 use std::path::{Path, PathBuf};
 
 pub mod safelong;
+pub mod uri;
 
 pub struct Src {
     pub path: PathBuf,
@@ -200,7 +201,7 @@ pub fn write_if_changed(path: &Path, text: &str) -> std::io::Result<bool> {
 }
 
 pub fn all() -> Vec<GenFile> {
-    vec![safelong::emit()]
+    vec![safelong::emit(), uri::emit()]
 }
 
 pub fn run(out_dir: &Path) -> Result<(), String> {
